@@ -96,6 +96,7 @@ func c14UserPanic(res *Result) {
 
 func suiteC14(cfg Config, res *Result) {
 	defer c14PrefilledBuffer(res)
+	defer reentrancy(res, "variants", "c14-reentrant-execution")
 	defer c14StaticWriterErrors(res)
 	defer c14OptionsAfterCompile(res)
 	defer c14Repeated(res)
